@@ -977,6 +977,13 @@ def replay(path):
     p = os.path.join(path, "case.json") if os.path.isdir(path) else path
     case = json.load(open(p))
     rt()
+    if "nested" in case:
+        f = nested_case(*case["nested"])
+        if f is None:
+            print("C19 replay: nested combination %s -> no disagreement (runtime %s)" % (case["nested"], rt().file))
+            return 0
+        common.print_violation(PROP, os.path.dirname(os.path.abspath(p)), "%s\nsignature: %s" % (f[1], f[0]))
+        return 1
     ctx = Ctx("replay", 0)
     run, f = execute(case["cfg"], case["ops"], ctx)
     for fid, e in sorted(ctx.known_seen.items()):
@@ -989,6 +996,85 @@ def replay(path):
                            "%s\n%s :: %s\nsignature: %s" % (f.detail, show_cfg(case["cfg"]),
                                                             " ; ".join(show_op(o) for o in f.ops), f.sig))
     return 1
+
+
+# ------------------------------------------------------------------------------------------------
+# nested aggregates: "the element type is checked" also when the element type is itself an aggregate
+
+NEST_TYPES = ["INTEGER", "REAL", "STRING", "BOOLEAN", "BINARY", "label", "colour"]
+# inner kinds whose classes are unrelated by subclassing in the runtime and by specialisation in EXPRESS
+UNRELATED_KINDS = {("ARRAY", "LIST"), ("ARRAY", "BAG"), ("ARRAY", "SET"), ("LIST", "BAG"), ("LIST", "SET"),
+                   ("LIST", "ARRAY"), ("BAG", "ARRAY"), ("SET", "ARRAY"), ("BAG", "LIST"), ("SET", "LIST")}
+
+
+def _mk_inner(kind, base, byname, fill):
+    r = rt()
+    bt = base if byname else r.types[base]
+    scope = r.scope if byname else None
+    cls = r.kinds[kind]
+    obj = cls(1, 2, bt, scope=scope)
+    if fill:
+        v = mkval([base, POOL[base][0]])
+        if kind in ("ARRAY", "LIST"):
+            obj[1] = v
+        else:
+            obj.add(v)
+    return obj
+
+
+def nested_case(outer, inner, decl, off_kind, off_type, byname, fill):
+    """-> None | (sig, detail): store an aggregate `off_kind OF off_type` into `outer OF inner OF decl`."""
+    r = rt()
+    want_accept = (off_kind == inner and off_type == decl)
+    try:
+        proto = _mk_inner(inner, decl, byname, False)
+        cont = r.kinds[outer](1, 2, proto)
+        val = _mk_inner(off_kind, off_type, byname, fill)
+    except Exception as e:
+        return ("nested|setup|%s" % exc_tag(e), "constructing %s [1:2] OF %s [1:2] OF %s raised %r" % (outer, inner, decl, e))
+    size0 = r.B.SIZEOF(cont) if outer != "ARRAY" else None
+    try:
+        if outer in ("ARRAY", "LIST"):
+            cont[1] = val
+        else:
+            cont.add(val)
+        accepted = True
+    except Exception:
+        accepted = False
+    what = "%s [1:2] OF %s [1:2] OF %s  <-  %s [1:2] OF %s%s%s" % (outer, inner, decl, off_kind, off_type, " (types by name)" if byname else "", " (filled)" if fill else "")
+    if accepted != want_accept:
+        return ("nested|%s|%s" % (outer, "unexpected-accept" if accepted else "unexpected-reject"),
+                "%s: %s, the element type is %s" % (what, "ACCEPTED" if accepted else "REFUSED", "the declared one" if want_accept else "not the declared one"))
+    if accepted and outer in ("ARRAY", "LIST"):
+        if cont[1] is not val:
+            return ("nested|%s|read-back" % outer, "%s: stored aggregate is not what slot 1 returns" % what)
+    if not accepted and size0 is not None and r.B.SIZEOF(cont) != size0:
+        return ("nested|%s|refused-but-changed" % outer, "%s: refused, but the size changed" % what)
+    return None
+
+
+def nested_grid(ev):
+    """every (outer kind, inner kind, declared element type) x offered (inner kind, element type) on which EXPRESS and the
+    runtime's class relation agree; -> list of failures"""
+    fails = []
+    n = 0
+    for outer in ("ARRAY", "LIST", "BAG", "SET"):
+        for inner in ("ARRAY", "LIST", "BAG", "SET"):
+            for decl in NEST_TYPES:
+                for off_kind in ("ARRAY", "LIST", "BAG", "SET"):
+                    if off_kind != inner and (off_kind, inner) not in UNRELATED_KINDS:
+                        continue            # BAG/SET: specialisation, not calibrated
+                    for off_type in NEST_TYPES:
+                        if off_type != decl and (decl in CONFORMS[off_type] or off_type in CONFORMS[decl] or (off_type, decl) in DOUBT or (decl, off_type) in DOUBT):
+                            continue        # related element types (label/STRING ...): not calibrated
+                        for byname in (False, True):
+                            for fill in (False, True):
+                                n += 1
+                                f = nested_case(outer, inner, decl, off_kind, off_type, byname, fill)
+                                ev.bump("nested:%s-OF-%s:%s" % (outer, inner, "same-type" if (off_kind == inner and off_type == decl) else ("other-kind" if off_kind != inner else "other-element-type")))
+                                if f:
+                                    fails.append({"sig": f[0], "detail": f[1], "nested": [outer, inner, decl, off_kind, off_type, byname, fill]})
+    return n, fails
 
 
 # ------------------------------------------------------------------------------------------------
@@ -1055,12 +1141,24 @@ def main(tier, seed):
         "lengths": sorted(set("%s:%d" % (c["kind"], l) for c, _a, l in plan))}
     ev.extra["random_machines"] = {"requested": machines, "max_steps": steps, "shards": nshards}
     rc = 0
+    n_nested, nfails = nested_grid(ev)
+    ev.extra["nested_aggregate_grid"] = {"combinations": n_nested, "disagreements": len(nfails),
+                                         "what": "outer kind x inner kind x declared element type x offered (inner kind, element type), types given as class and by name, offered aggregate empty and filled"}
+    ev.evaluations += n_nested
+    ev.nontrivial_counted = getattr(ev, "nontrivial_counted", 0) + n_nested
+    if nfails and not failures:
+        nf = nfails[0]
+        ev.violations += 1
+        d = common.save_replay(PROP, {"case.json": json.dumps({"property": PROP, "nested": nf["nested"], "sig": nf["sig"]}, indent=1) + "\n"},
+                               {"tier": tier, "seed": seed, "sig": nf["sig"], "detail": nf["detail"], "where": "nested grid", "runtime": rt().file})
+        common.print_violation(PROP, d, "%s\nsignature: %s (%d of %d nested combinations disagree)" % (nf["detail"], nf["sig"], len(nfails), n_nested))
+        rc = 1
     if failures:
         # deterministic choice: fewest operations, then text order
         failures.sort(key=lambda wf: (len(wf[1]["ops"]), json.dumps(wf[1], sort_keys=True)))
         where, fail = failures[0]
         others = sorted(set(f["sig"] for _w, f in failures[1:]) - {fail["sig"]})
-        rc = report_violation(ev, fail, tier, seed, where)
+        rc = max(rc, report_violation(ev, fail, tier, seed, where))
         if others:
             print("C19: other disagreement signatures seen in the same run (not reported separately): " + "; ".join(others))
     n_nontrivial = len(ev.nontrivial) + getattr(ev, "nontrivial_counted", 0)
